@@ -59,7 +59,7 @@ func ParseLog(text string) {
 		str = strings.SplitN(text, id[0], 2)[1]
 		auth = authorReg.FindStringSubmatch(str)
 	}
-	if auth != nil {
+	if auth != nil && auth[1] != "" {
 		str = strings.SplitN(str, auth[1], 2)[1]
 		dat = dateReg.FindStringSubmatch(str)
 	}
